@@ -110,7 +110,7 @@ func typeGuards(b *ssa.BasicBlock, left, right ssa.Value) string {
 		} else {
 			continue
 		}
-		n, ok := ta.AssertedType.(*types.Named)
+		n, ok := types.Unalias(ta.AssertedType).(*types.Named)
 		if !ok {
 			continue
 		}
